@@ -378,6 +378,10 @@ transport_harness!(c01_q_transport_n_r_stateful, Pat::N, false, false);
 transport_harness!(c01_t_transport_xx_r_stateful, Pat::XX, false, false);
 transport_harness!(c01_t_transport_n_i_stateless, Pat::N, true, true);
 
+// last message over a 64-byte toy hash: MixKey and Split() truncate their HKDF outputs to 32 bytes (HASHLEN 64 branch)
+step_harness!(c01_q_step_nn_w1_hl64, step_write, 64, 4, 4, 1, Pat::NN, 0, 1, 66);
+step_harness!(c01_t_step_nn_r1_hl64, step_read, 64, 4, 4, 1, Pat::NN, 0, 1, 66);
+
 // more step harnesses (quick): one per token kind / position class / role
 step_harness!(c01_q_step_ik_w0, step_write, 8, 4, 4, 2, Pat::IK, 0, 0, 34);
 step_harness!(c01_q_step_ik_r1, step_read, 8, 4, 4, 1, Pat::IK, 0, 1, 34);
